@@ -38,11 +38,11 @@ def finite_refute(hyps, goal, axioms=(), sizes=(2, 3, 4), timeout_ms=10000, sort
             p = subprocess.run(["z3-new", f"-T:{secs}", f"rlimit={budget.rl(timeout_ms, 'finite')}", path], capture_output=True, text=True, timeout=secs + 10,
                                preexec_fn=budget.limit_cpu(budget.cpu_s(timeout_ms, "finite")))
             out = p.stdout.strip()
-            if out.startswith("timeout") and budget.stopped_by_wall_clock(cpu0, timeout_ms, "finite"):
+            if out.startswith("timeout") and budget.stopped_by_wall_clock(cpu0, timeout_ms, "finite", t0_):
                 budget.wall_hit("finite")
             budget.log(f"finite{n}", out.split("\n")[0][:10], 0, time.time() - t0_, budget.rl(timeout_ms, "finite"))
         except subprocess.TimeoutExpired:
-            if budget.stopped_by_wall_clock(cpu0, timeout_ms, "finite"):
+            if budget.stopped_by_wall_clock(cpu0, timeout_ms, "finite", t0_):
                 budget.wall_hit("finite")
             out = "unknown"
         except Exception:  # noqa
